@@ -223,7 +223,7 @@ DEP5_HEAD = "Format: https://www.debian.org/doc/packaging-manuals/copyright-form
 class FileStream(Stream):
     name = "file"
     rule = ("generated .reuse/dep5 files (1-4 Files paragraphs, 1-3 patterns each from a plain-glob grammar, a third of the paragraphs with a pattern that is not in normal POSIX form -- ./x, x//y, x/./y, x/, /x, x/../y: dead under dep5 --, multi-line "
-            "copyright, comments; 40 % with a later paragraph repeating the copyright / licence of an earlier one around a different one, plus "
+            "copyright, comments, a quarter of the License fields with the licence text after the synopsis, stand-alone License paragraphs; 40 % with a later paragraph repeating the copyright / licence of an earlier one around a different one, plus "
             "the nested ours / theirs / ours shapes) over a fixed tree of 14 files, some with own headers: `reuse lint --json` before and "
             "after `reuse convert-dep5` compared modulo the source name; order of write/unlink observed; refusal without dep5; "
             "non-trivial = conversion succeeded and at least two files are attributed by different paragraphs")
@@ -249,13 +249,20 @@ class FileStream(Stream):
                         gs = [rng.choice(self.ODD_GLOBS)]   # a paragraph that is dead as a whole
                 cp = ["%d Holder %d" % (rng.randint(1990, 2024), rng.randint(1, 9)) for _ in range(rng.randint(1, 3))]
                 paras.append({"g": gs, "c": cp, "l": rng.choice(self.LIC), "comment": rng.random() < 0.3})
+                if rng.random() < 0.25:
+                    # the License field holds the licence text after the synopsis (continuation lines, " ." for an empty line),
+                    # as the Debian format allows; the synopsis alone is the expression
+                    paras[-1]["ltext"] = rng.choice(self.LICENCE_TEXTS)
             if len(paras) >= 2 and rng.random() < 0.4:
                 # a later paragraph repeats copyright, licence and comment of an earlier one, another paragraph in between:
                 # the order of the paragraphs is part of the meaning (the last match wins)
                 k = rng.randrange(len(paras) - 1)
                 paras.append({"g": rng.sample(self.GLOBS, rng.randint(1, 2)), "c": list(paras[k]["c"]), "l": paras[k]["l"],
                               "comment": paras[k]["comment"]})
-            yield {"paras": paras, "own": rng.sample(self.TREE, 3)}
+            case = {"paras": paras, "own": rng.sample(self.TREE, 3)}
+            if rng.random() < 0.2:
+                case["standalone"] = rng.sample(self.LIC, rng.randint(1, 2))     # stand-alone License paragraphs with the full text
+            yield case
         # ours / theirs / ours again, nested: `*`, `src/*`, `src/lib/*`
         us = {"c": ["2020 Jane Doe"], "l": "MIT", "comment": False}
         them = {"c": ["2019 Vendor Inc."], "l": "Apache-2.0 OR MIT", "comment": False}
@@ -268,13 +275,19 @@ class FileStream(Stream):
             yield {"paras": [dict(us, g=["*"]), dict(them, g=odd + ["docs/img/*.png"]), dict(us, g=["*.md"])], "own": ["README"]}
         yield {"paras": None, "own": []}  # no dep5 file: must refuse
 
-    def dep5_text(self, paras):
+    LICENCE_TEXTS = [["Permission is hereby granted, free of charge, to any person"], ["First paragraph of the text", ".", "Second paragraph, after an empty line"],
+                     ["text that mentions SPDX-License-Identifier: GPL-2.0-only", ".", " indented line"], ["On Debian systems the full text is in /usr/share/common-licenses/X"]]
+
+    def dep5_text(self, paras, standalone=()):
         out = [DEP5_HEAD]
         for p in paras:
+            lic = p["l"] + "".join("\n " + l for l in p.get("ltext", []))
             out.append("\nFiles: %s\nCopyright: %s\nLicense: %s\n" % (
-                " ".join(p["g"]), "\n           ".join(p["c"]), p["l"]))
+                " ".join(p["g"]), "\n           ".join(p["c"]), lic))
             if p["comment"]:
                 out[-1] += "Comment: some\n comment\n"
+        for l in standalone:
+            out.append("\nLicense: %s\n The full text of %s\n .\n in a paragraph of its own\n" % (l, l))
         return "".join(out)
 
     def impl(self, case):
@@ -289,7 +302,7 @@ class FileStream(Stream):
             for lic in ["MIT", "0BSD", "GPL-3.0-or-later", "Apache-2.0", "CC0-1.0", "ISC"]:
                 files["LICENSES/%s.txt" % lic] = "text\n"
             if case["paras"] is not None:
-                files[".reuse/dep5"] = self.dep5_text(case["paras"])
+                files[".reuse/dep5"] = self.dep5_text(case["paras"], case.get("standalone", ()))
             cli.write_tree(root, files)
             code0, before, exc0 = cli.lint_json(root)
             # observe the order of the two file operations
@@ -374,7 +387,7 @@ class FileStream(Stream):
         return impl_out if r.get("distinct", 0) >= 2 else None
 
     def show(self, case):
-        return {"dep5": self.dep5_text(case["paras"]) if case["paras"] else None, "own": case["own"]}
+        return {"dep5": self.dep5_text(case["paras"], case.get("standalone", ())) if case["paras"] else None, "own": case["own"]}
 
 
 PROPERTY = Property(
